@@ -86,7 +86,7 @@ ProcStep ==
        /\ IF RunOuts(kind, sdir) = {}
           THEN /\ Finish("error") /\ UNCHANGED <<exec, steps, sc>>        \* Execute returned an error
           ELSE \E o \in RunOuts(kind, sdir) :
-               /\ exec' = Append(exec, [flow |-> fname, key |-> top.n, dir |-> sdir, out |-> o])
+               /\ exec' = Append(exec, [flow |-> fname, sid |-> "", key |-> top.n, dir |-> sdir, out |-> o])
                /\ steps' = steps + 1
                /\ IF kind = "Gen" /\ sdir = "req"
                   THEN IF HasNode(b.res, top.n)
@@ -140,11 +140,11 @@ Spec == Init /\ [][Next]_vars
 Done == phase = "done"
 
 \* C04: what the engine executed is a walk of the configured graph
-FollowsGraph == Done => TxVerdict(cfg, fname, txdir, exec, outcome) = "ok"
+FollowsGraph == Done => TxVerdict(cfg, fname, txdir, exec, <<>>, outcome) = "ok"
 
 \* C05: an accepted configuration handles every transaction within the bound
 Safe == steps <= Bound(cfg)
 
 \* the verdict as a value, for witness classification
-Verdict == IF Done THEN TxVerdict(cfg, fname, txdir, exec, outcome) ELSE "running"
+Verdict == IF Done THEN TxVerdict(cfg, fname, txdir, exec, <<>>, outcome) ELSE "running"
 ================================================================================
